@@ -28,7 +28,8 @@ guards call on a column name (`CheckName`, with `isQuoted` inlined). `runGuards`
                               itself), the spec returns `.ok f`
 * `gen_new_guards_partial`  — `New`'s prefix rejects iff one of the first three checks of `newS` does (illegal name, order
                               of the wrong length, order naming a column that is not there), and then `newS = .err`.
-                              PARTIAL: `New`'s later checks are outside the chain.
+                              PARTIAL: `New`'s later checks are outside the chain (they are regenerated and
+                              proved in QF/Props/C08Construct.lean: `gen_new_semantics_partial`).
 
 Method (as in C02Kernels / C03Compare): `decide` shows that each generated chain IS the canonical chain
 (`gen_guards_canon`, `gen_checkname_canon`, `gen_len_canon`: finite, redone on every run); the meaning of the canonical
